@@ -20,7 +20,7 @@ func init() {
 		Rules: []string{"ORD-2", "ORD-3", "EFF-1", "EFF-2", "PAIR-2", "PAIR-3", "OWN-1", "SPLIT-1", "POP-1"},
 		Explanation: "Decides the undo structure and the output mapping, not the multiset equality itself: ORD-2 restore and un-reverse happen after the pipeline and before collection; EFF-1 Reverse is an involution on direction/flag/adjacency; EFF-2 fragments and self-loops: every add has its remove; " +
 			"PAIR-2 un-reverse exactly the flagged edges; PAIR-3 ID/direction/size copied from the right fields, helper nodes filtered unless requested, no other node or edge dropped; OWN-1 Edge.Points written only by routers (which never see self-loops), Node.W/H written only by the two option closures, IsVirtual/ID only at construction; " +
-			"ORD-3 fixed size first, per-node override second and only for listed nodes; SPLIT-1 the component traversal records every node and edge it reaches. Not decided: that break/merge are exact inverses on every chain (the count of edges).",
+			"ORD-3 fixed size first, per-node override second and only for listed nodes; SPLIT-1 the component traversal records every node and edge it reaches; POP-1 every row of the source becomes an edge (no row is skipped or folded into another). Not decided: that break/merge are exact inverses on every chain (the count of edges).",
 		Assumptions: []string{"clauses are necessary, not sufficient"},
 	})
 	registerProp(&Property{
@@ -52,7 +52,7 @@ func init() {
 		Tech:  "symbolic affine execution of the routers (point-sequence shapes, orthogonality as shared coordinate expressions), SSA value-identity for spline joining",
 		Rules: []string{"AFF-2", "AFF-3", "AFF-9", "OWN-1", "PAIR-3", "FLOW-1", "DISP-1"},
 		Explanation: "PAIR-3 + FLOW-1: the caller receives the router's point list itself - a plain copy (slices.Clone or a package helper that receives e.Points) whose only change is the component shift added to x; nothing is filtered, compacted or re-ordered on the way out (spline routes rely on repeated points at the joints). AFF-2: Straight yields exactly 2 points; Polyline yields [start, one point per inner route node at (n.X + W/2, n.Y + layerH/2), end]; Splines append 4-point pieces; AFF-3: within one orthogonal elbow consecutive points share an identical x or y expression and consecutive elbows share x; " +
-			"AFF-9: spline pieces join (shared split point and tangent, p0/p3 from the path ends, pieces emitted reversed while iterating backward); OWN-1: helper nodes keep zero size, so the bend x is the helper node's x in the output. Not decided: 'never upward' and 'no bend inside a node rectangle' (need C03/C04 numerically).",
+			"AFF-9: spline pieces join (shared split point and tangent, p0/p3 from the path ends, pieces emitted reversed while iterating backward); OWN-1: helper nodes keep zero size, so the bend x is the helper node's x in the output, and nothing but a router writes Points; DISP-1: the router that runs is the selected one for every graph with more than one node. Not decided: 'never upward' and 'no bend inside a node rectangle' (need C03/C04 numerically).",
 		Assumptions: []string{"flat (same-layer) edges are outside the decided shapes"},
 	})
 	registerProp(&Property{
